@@ -344,7 +344,24 @@ def pty_session(cicada, sb, idx, entries, keys, env_extra):
     if not wait_for(lambda: b"$ " in out, "prompt"):
         err = "time-out waiting for the first prompt"
     else:
-        os.write(fd, keys.encode("utf-8") + b"\r" + b"argv __done__\r")
+        if isinstance(keys, (list, tuple)):
+            # typed piece by piece, the editor's reaction drained in between (a burst is read by the line editor as pasted text:
+            # a TAB inside it does not run the completer)
+            for piece in keys:
+                os.write(fd, piece.encode("utf-8"))
+                drain(0.03)
+                if piece.endswith("\r"):
+                    # a submitted line: let it finish (the next key must reach the line editor, not a terminal in cooked mode
+                    # where Ctrl-C would be a SIGINT for the shell itself) -- wait until the output has been quiet for 0.2 s
+                    end_q = time.time() + 8
+                    while time.time() < end_q:
+                        n0 = len(out)
+                        drain(0.2)
+                        if len(out) == n0:
+                            break
+            os.write(fd, b"\r" + b"argv __done__\r")
+        else:
+            os.write(fd, keys.encode("utf-8") + b"\r" + b"argv __done__\r")
         if not wait_for(done_logged, "sentinel"):
             err = "time-out waiting for the sentinel command after the completed line (screen: %r)" % bytes(out[-900:])
         else:
